@@ -119,23 +119,51 @@ def under_factory(handler, registry):
         prog = env.scn['under']
         if prog[0] == 'raise':
             raise env.exc(prog[1])
+        if prog[0] == 'retry':
+            # the same request object dispatched twice: the second time to another (unrouted) path
+            try:
+                handler(request)
+            except BaseException as e:
+                env.note(e, 'H')
+            request.path_info = '/' + prog[1]
+            try:
+                return handler(request)
+            except BaseException as e:
+                env.note(e, 'H')
+                raise
         try:
             resp = handler(request)
         except BaseException as e:
             env.note(e, 'H')
             if prog[0] == 'catch' and isinstance(e, Exception):
                 before = env.snapshot(request)
+                # via: the method is called on ANOTHER request object, the failed one is passed as request=
+                if prog[3]:
+                    from pyramid.request import Request
+                    caller = Request.blank('/')
+                    caller.registry = request.registry
+                    kw = {'request': request}
+                else:
+                    caller, kw = request, {}
+
+                def ctl_events():
+                    if caller is request:
+                        return []
+                    snap = env.snapshot(caller)
+                    return [[4, i, v] for i, v in enumerate(snap) if v != []]
                 try:
-                    resp = request.invoke_exception_view(reraise=bool(prog[1]), secure=bool(prog[2]))
+                    resp = caller.invoke_exception_view(reraise=bool(prog[1]), secure=bool(prog[2]), **kw)
                 except BaseException as e2:
                     env.note(e2, 'I')
+                    env.log.extend(ctl_events())
                     env.log.append([1, env.lab(e), before, [2, env.lab(e2)], env.snapshot(request)])
                     raise
+                env.log.extend(ctl_events())
                 env.log.append([1, env.lab(e), before, env.outcome(resp), env.snapshot(request)])
             else:
                 raise
-        if prog[0] == 'catch' and prog[3] is not None:
-            raise env.exc(prog[3])
+        if prog[0] == 'catch' and prog[4] is not None:
+            raise env.exc(prog[4])
         return resp
     return under
 
